@@ -159,10 +159,12 @@ fn cmd_record(args: &[String]) -> i32 {
     let seed: u64 = args[5].parse().unwrap_or(runner::DEFAULT_SEED);
     let run: usize = args[6].parse().unwrap_or(0);
     let n: usize = args[7].parse().unwrap_or(1);
+    // the violation's key (entry point, input class, outcome) as canonical JSON text, if given
+    let key = args.get(9).and_then(|k| serde_json::from_str::<Value>(k).ok()).map(|v| v.to_string()).unwrap_or_default();
     let s = if args[2] == "worker" {
-        runner::worker_level_schedule(def.run, def.isolated, seed, &args[3], tier, run, n.max(1), &args[8])
+        runner::worker_level_schedule(def.run, def.isolated, seed, &args[3], tier, run, n.max(1), &args[8], &key)
     } else {
-        runner::run_level_schedule(def.run, seed, &args[3], tier, run, &args[8])
+        runner::run_level_schedule(def.run, seed, &args[3], tier, run, &args[8], &key)
     };
     println!("{}", serde_json::to_string(&s).unwrap());
     0
@@ -184,6 +186,27 @@ fn cmd_journal_run(args: &[String]) -> i32 {
     // the same backstop as in a worker (compound ops re-arm it per library call): exit 3 = an op
     // really does not return; exit 0 = the run completes
     runner::spawn_watchdog(|_| std::process::exit(3));
+    // optional 7th argument: the number of worker processes of the batch. Then everything the
+    // run's worker executed before it is executed first (a hang may need what an earlier run
+    // left behind in the process); the journal is switched on for the run itself only.
+    let n: usize = args.get(7).and_then(|s| s.parse().ok()).unwrap_or(0);
+    if run >= (def.runs)(tier) {
+        return 0; // not a run of this batch (a thread that belongs to no run was stuck)
+    }
+    if n > 0 && !(def.isolated)(tier, run) {
+        let journal = PathBuf::from(&args[6]);
+        runner::set_journal(None);
+        runner::journal_cumulative();
+        let mut r = run % n;
+        while r < run {
+            if !(def.isolated)(tier, r) {
+                let _ = runner::run_one(def.run, seed, &args[2], tier, r);
+                runner::journal_mark(json!({"op":"thread.reset"}));
+            }
+            r += n;
+        }
+        runner::set_journal(Some(journal));
+    }
     let _ = runner::run_one(def.run, seed, &args[2], tier, run);
     0
 }
@@ -224,6 +247,7 @@ fn cmd_check(args: &[String]) -> i32 {
         std::fs::create_dir_all(&replay_dir).ok();
         runner::set_journal(Some(replay_dir.join(format!("{id}-{seed}-inflight.json"))));
     }
+    let def_runs = def.runs;
     let on_stuck = {
         let id2 = id.clone();
         let rd = replay_dir.clone();
@@ -237,8 +261,12 @@ fn cmd_check(args: &[String]) -> i32 {
             let file = rd.join(format!("{id2}-{seed}-{run}-timeout.json"));
             let exe = std::env::current_exe().unwrap();
             let mut hung = true;
-            if let Ok(mut child) = std::process::Command::new(exe)
-                .args(["journal-run", &id2, tier.name(), &seed.to_string(), &run.to_string(), file.to_str().unwrap()])
+            // first the run alone; if it completes, once more after everything its worker had
+            // executed before it (process-wide state left by earlier runs)
+            let nworkers = runner::workers().min((def_runs)(tier).max(1));
+            for prefix in [0usize, nworkers] {
+            if let Ok(mut child) = std::process::Command::new(&exe)
+                .args(["journal-run", &id2, tier.name(), &seed.to_string(), &run.to_string(), file.to_str().unwrap(), &prefix.to_string()])
                 .spawn()
             {
                 let t0 = Instant::now();
@@ -256,6 +284,10 @@ fn cmd_check(args: &[String]) -> i32 {
                 }
                 let _ = child.kill();
                 let _ = child.wait();
+            }
+            if hung {
+                break;
+            }
             }
             if hung {
                 println!("VIOLATION property={id2} replay={} outcome=timeout", file.display());
@@ -379,7 +411,7 @@ fn cmd_check(args: &[String]) -> i32 {
             // it depends on state the library kept from earlier worlds of the same run: replay the
             // run as a whole (worlds separated by world.reset), then minimise that
             println!("  note: the violating world alone does not reproduce; replaying run {} as a whole (hidden state across operations)", f.run);
-            match runner::recorded_schedule("run", seed, &id, tier, f.run, 1, &f.v.oracle) {
+            match runner::recorded_schedule("run", seed, &id, tier, f.run, 1, &f.v.oracle, &f.v.key) {
                 Some(full) => {
                     let (m, t) = runner::minimise(&full, &id, &f.v.oracle, &f.v.key, budget(200));
                     let p = runner::write_replay(&replay_dir, &id, seed, tier, f, &m, true, gi);
@@ -394,7 +426,7 @@ fn cmd_check(args: &[String]) -> i32 {
             // kept process-wide from EARLIER RUNS of the same worker process; replay all of them
             println!("  note: run {} alone does not reproduce; replaying everything its worker process executed before it", f.run);
             let n = runner::workers().min(runs.max(1));
-            match runner::recorded_schedule("worker", seed, &id, tier, f.run, n, &f.v.oracle) {
+            match runner::recorded_schedule("worker", seed, &id, tier, f.run, n, &f.v.oracle, &f.v.key) {
                 Some(full) => {
                     let p = runner::write_replay(&replay_dir, &id, seed, tier, f, &full, false, gi);
                     ok = confirm(&p);
